@@ -3,6 +3,7 @@
 // data-dependent parsing happens in the probe itself).  Prints nothing that depends on the data.
 //   ctprobe dudect <set> <file with 64 RNG bytes>
 //   ctprobe kernel <name> <file with 1024 bytes = 256 little-endian i32>
+//   ctprobe mask <18|20> <file with 64 bytes of rho''>
 #![allow(deprecated)]
 use fips204::verif_hooks as vh;
 use rand_core::{CryptoRng, Error, RngCore};
@@ -47,6 +48,14 @@ fn run(a: &[String], data: Vec<u8>) {
                 _ => { black_box(fips204::ml_dsa_87::dudect_keygen_sign_with_rng(&mut rng, &msg).unwrap()); }
             }
         }
+        "mask" => {
+            // ExpandMask alone: 64 bytes of rho'' (secret) from the file, counter 0
+            let rho: [u8; 64] = data[..64].try_into().unwrap();
+            match a[2].as_str() {
+                "18" => { black_box(vh::expand_mask::<4>(1 << 17, &rho, 0)); }
+                _ => { black_box(vh::expand_mask::<5>(1 << 19, &rho, 0)); black_box(vh::expand_mask::<7>(1 << 19, &rho, 0)); }
+            }
+        }
         "kernel" => {
             // 256 coefficients; each kernel maps them into its documented input range WITHOUT branching on them
             let raw: [i32; 256] = core::array::from_fn(|i| i32::from_le_bytes(data[4 * i..4 * i + 4].try_into().unwrap()));
@@ -69,6 +78,8 @@ fn run(a: &[String], data: Vec<u8>) {
                     "inv_ntt" => { black_box(vh::inv_ntt::<1>(&[cent])); }
                     "mat_vec_mul" => { black_box(vh::mat_vec_mul::<1, 1>(&[[modq]], &[cent])); }
                     "to_mont" => { black_box(vh::to_mont::<1>(&[cent])); }
+                    // range checks are constant-time on SUCCESS (every coefficient in range)
+                    "is_in_range" => { black_box(vh::is_in_range(&eta, 2, 2)); black_box(vh::is_in_range(&small, g1 - 1, g1)); black_box(vh::is_in_range(&cent, Q / 2, Q / 2)); }
                     "half_byte" => { for x in raw { black_box(vh::coeff_from_half_byte::<true>(2, (x & 15) as u8)); black_box(vh::coeff_from_half_byte::<true>(4, ((x >> 4) & 15) as u8)); } }
                     "reductions" => { for x in cent { black_box(vh::mont_reduce(i64::from(x) * i64::from(modq[7]))); black_box(vh::partial_reduce32(x)); black_box(vh::full_reduce32(x)); } }
                     other => panic!("unknown kernel {}", other),
